@@ -96,6 +96,30 @@ def seeded_variants(prop):
     return out
 
 
+def twin_variants(prop):
+    """The other-way tests of the readings added for refactored shapes (twins/<name>/: a kept refactoring plus one exact-text break made
+    in the refactored source, stored as one diff against the tree; tools/mktwin.py): the check of every property named in the twin's
+    meta.json must report it.  A twin whose patch no longer applies is skipped like a stale seed."""
+    import json
+    base = os.path.join(os.path.dirname(os.path.dirname(os.path.abspath(__file__))), "twins")
+    out = []
+    if os.path.isdir(base):
+        for d in sorted(os.listdir(base)):
+            pth = os.path.join(base, d, "patch.diff")
+            meta = os.path.join(base, d, "meta.json")
+            if not (os.path.exists(pth) and os.path.exists(meta)):
+                continue
+            try:
+                with open(meta) as fh:
+                    m = json.load(fh)
+            except ValueError:
+                continue
+            if prop in m.get("breaks", []):
+                out.append({"name": "twins/%s (%s, broken: %s)" % (d, m.get("base"), m.get("what", "")), "kind": "B", "props": [prop],
+                            "patch": pth, "expect": {}})
+    return out
+
+
 def _run_one(args):
     prop, v, baseline_keys = args
     from .engine import Analysis
@@ -124,7 +148,7 @@ def _run_one(args):
 
 def run_for(prop, mod, baseline_findings=None, jobs=None):
     corpus_mod = importlib.import_module("sa.corpus")
-    variants = [v for v in corpus_mod.VARIANTS if prop in v["props"]] + neutral_variants() + seeded_variants(prop)
+    variants = [v for v in corpus_mod.VARIANTS if prop in v["props"]] + neutral_variants() + seeded_variants(prop) + twin_variants(prop)
     known = {(k["rule"], k["construct"]) for k in load_known() if k.get("property") == prop and k.get("status") == "known"}
     baseline = sorted({(f.rule, f.construct) for f in (baseline_findings or [])})
     unlisted_baseline = [b for b in baseline if b not in known]
